@@ -309,3 +309,56 @@ MUTANTS += [
     m("c14-getitem-name-cell", ["C14", "C07"], M, "return self.__class__(region=self.subregions[item], cell=self.cell)", "return self.__class__(region=self.subregions[item], n=self.n)"),
     m("c14-init-bypasses-setter", ["C14", "C13"], M, "        self.subregions = subregions\n", "        self._subregions = subregions or {}\n"),
 ]
+
+MUTANTS += [
+    # ------------------------------------------------------------------ C15
+    m("c15-norm-axis", ["C15"], F, "res = np.linalg.norm(self.array, axis=-1, keepdims=True)", "res = np.linalg.norm(self.array, axis=0, keepdims=True)"),
+    m("c15-norm-l1", ["C15"], F, "res = np.linalg.norm(self.array, axis=-1, keepdims=True)", "res = np.linalg.norm(self.array, ord=1, axis=-1, keepdims=True)"),
+    m("c15-norm-drops-unit", ["C15"], F, "self.mesh, nvdim=1, value=res, unit=self.unit, valid=self.valid", "self.mesh, nvdim=1, value=res, valid=self.valid"),
+    m("c15-setter-unguarded", ["C15"], F, "                out=np.zeros_like(self.array),\n                where=self.norm.array != 0.0,\n", "", anchor="def norm(self, val):"),
+    m("c15-setter-no-rescale", ["C15"], F, "            self.array *= self._as_array(val, self.mesh, nvdim=1, dtype=None)\n", "            pass\n"),
+    m("c15-setter-rescale-first", ["C15"], F, "            self.array *= self._as_array(val, self.mesh, nvdim=1, dtype=None)\n", "            self.array += self._as_array(val, self.mesh, nvdim=1, dtype=None)\n"),
+    m("c15-orientation-threshold", ["C15"], F, "where=np.invert(np.isclose(self.norm.array, 0)),", "where=np.invert(np.isclose(self.norm.array, 0, atol=1e-3)),"),
+    m("c15-orientation-out", ["C15"], F, "            out=np.zeros_like(self.array),\n        )\n        return self.__class__(\n            self.mesh,\n            nvdim=self.nvdim,\n            value=orientation_array,", "            out=np.ones_like(self.array),\n        )\n        return self.__class__(\n            self.mesh,\n            nvdim=self.nvdim,\n            value=orientation_array,"),
+    m("c15-orientation-drops-valid", ["C15", "C08"], F, "            value=orientation_array,\n            vdims=self.vdims,\n            valid=self.valid,", "            value=orientation_array,\n            vdims=self.vdims,"),
+    m("c15-update-reapplies-norm", ["C15", "C02"], F, "        self.array = self._as_array(value, self.mesh, self.nvdim, dtype=self.dtype)\n\n    @property\n    def vdims", "        self.array = self._as_array(value, self.mesh, self.nvdim, dtype=self.dtype)\n        self.norm = getattr(self, \"_last_norm\", None)\n\n    @property\n    def vdims"),
+]
+
+MUTANTS += [
+    # ------------------------------------------------------------------ C16
+    m("c16-dimensions", ["C16"], F, "rgrid.SetDimensions(*(n + 1 for n in self.mesh.n))", "rgrid.SetDimensions(*(n for n in self.mesh.n))"),
+    m("c16-coordinates-order", ["C16"], F, "[rgrid.SetXCoordinates, rgrid.SetYCoordinates, rgrid.SetZCoordinates],", "[rgrid.SetYCoordinates, rgrid.SetXCoordinates, rgrid.SetZCoordinates],"),
+    m("c16-coordinates-cells", ["C16"], F, "np.fromiter(getattr(self.mesh.vertices, dim), float)", "np.fromiter(getattr(self.mesh.cells, dim), float)"),
+    m("c16-field-perm", ["C16"], F, "self.array.transpose((2, 1, 0, 3)).reshape((-1, self.nvdim))", "self.array.transpose((0, 1, 2, 3)).reshape((-1, self.nvdim))"),
+    m("c16-norm-perm", ["C16"], F, "self.norm.array.transpose((2, 1, 0, 3)).reshape(-1)", "self.norm.array.transpose((1, 2, 0, 3)).reshape(-1)"),
+    m("c16-component-perm", ["C16"], F, "getattr(self, comp).array.transpose((2, 1, 0, 3)).reshape(-1)", "getattr(self, comp).array.reshape(-1)"),
+    m("c16-field-name", ["C16", "C08"], F, 'field_array.SetName("field")', 'field_array.SetName("Field")'),
+    m("c16-valid-not-added", ["C16"], F, "        cell_data.AddArray(valid_array)\n", ""),
+    m("c16-reader-bounds", ["C16"], VTK, "p2 = output.GetBounds()[1::2]", "p2 = output.GetBounds()[3:]"),
+    m("c16-reader-n", ["C16"], VTK, "n = [i - 1 for i in output.GetDimensions()]", "n = [i for i in output.GetDimensions()]"),
+    m("c16-reader-order", ["C16"], VTK, "value = vns.vtk_to_numpy(array).reshape(*reversed(n), dim)", "value = vns.vtk_to_numpy(array).reshape(*n, dim)"),
+    m("c16-reader-perm", ["C16"], VTK, "value = value.transpose((2, 1, 0, 3))", "value = value.transpose((1, 2, 0, 3))"),
+    m("c16-reader-norm-as-label", ["C16"], VTK, 'elif name not in ["norm"]:', "else:"),
+    m("c16-txt-binary", ["C16"], VTK, 'if representation == "txt":\n            writer.SetFileTypeToASCII()', 'if representation == "bin8":\n            writer.SetFileTypeToASCII()'),
+    m("c16-unknown-repr", ["C16"], VTK, '            writer = vtkRectilinearGridWriter()\n        else:\n            raise ValueError(f"Unknown {representation=}.")', '            writer = vtkRectilinearGridWriter()\n        else:\n            writer = vtkRectilinearGridWriter()'),
+    m("c16-refuse-2d", ["C16"], F, "        if self.mesh.region.ndim != 3:\n            raise RuntimeError(\n                \"Conversion to VTK", "        if self.mesh.region.ndim > 3:\n            raise RuntimeError(\n                \"Conversion to VTK"),
+    m("c16-legacy-never", ["C16"], VTK, "if cell_data.GetNumberOfArrays() == 0:", "if cell_data.GetNumberOfArrays() < 0:"),
+    m("c16-sidecar", ["C16"], VTK, "        with contextlib.suppress(FileNotFoundError):\n            mesh.load_subregions(filename)\n\n        return cls(mesh, nvdim=dim, value=value, vdims=vdims, valid=valid)", "        return cls(mesh, nvdim=dim, value=value, vdims=vdims, valid=valid)"),
+]
+
+MUTANTS += [
+    # ------------------------------------------------------------------ C17
+    m("c17-coords-vertices", ["C17"], F, "data_array_coords = {axis: getattr(self.mesh.cells, axis) for axis in axes}", "data_array_coords = {axis: getattr(self.mesh.vertices, axis)[:-1] for axis in axes}"),
+    m("c17-attrs-pmax", ["C17"], F, "                pmax=self.mesh.region.pmax,\n                nvdim=self.nvdim,", "                pmax=self.mesh.region.pmin,\n                nvdim=self.nvdim,"),
+    m("c17-attrs-no-tolerance", ["C17"], F, "                nvdim=self.nvdim,\n                tolerance_factor=self.mesh.region.tolerance_factor,\n", "                nvdim=self.nvdim,\n"),
+    m("c17-coordinate-units-first", ["C17"], F, 'data_array[dim].attrs["units"] = geo_units_dict[dim]', 'data_array[dim].attrs["units"] = self.mesh.region.units[0]'),
+    m("c17-corner-half-cell", ["C17"], F, "else [xa[i].values[0] - c / 2 for i, c in zip(dims_list, cell)]", "else [xa[i].values[0] for i, c in zip(dims_list, cell)]"),
+    m("c17-upper-corner-first", ["C17"], F, "else [xa[i].values[-1] + c / 2 for i, c in zip(dims_list, cell)]", "else [xa[i].values[0] + c / 2 for i, c in zip(dims_list, cell)]"),
+    m("c17-cell-median", ["C17"], F, "cell = [np.diff(xa[i].values).mean() for i in dims_list]", "cell = [np.diff(xa[i].values).max() for i in dims_list]"),
+    m("c17-uneven-accepted", ["C17"], F, "            if xa[i].values.size > 1 and not np.allclose(\n", "            if xa[i].values.size > 2 and not np.allclose(\n"),
+    m("c17-nvdim-missing", ["C17"], F, '        if "nvdim" not in xa.attrs:\n            raise KeyError(', '        if False:\n            raise KeyError('),
+    m("c17-vdims-dim-missing", ["C17"], F, 'if xa.attrs["nvdim"] > 1 and "vdims" not in xa.dims:', 'if xa.attrs["nvdim"] > 3 and "vdims" not in xa.dims:'),
+    m("c17-dtype-dropped", ["C17"], F, "mesh=mesh, nvdim=nvdim, value=val, vdims=vdims, dtype=xa.values.dtype\n", "mesh=mesh, nvdim=nvdim, value=val, vdims=vdims\n"),
+    m("c17-labels-dropped", ["C17"], F, 'vdims = xa.vdims.values if "vdims" in xa.coords else None', "vdims = None"),
+    m("c17-scalar-not-squeezed", ["C17"], F, "field_array = np.squeeze(self.array, axis=-1)", "field_array = np.squeeze(self.array)"),
+]
